@@ -708,10 +708,13 @@ class NodeRun:
                     if big or many:
                         self.fail("DHTCommunity.on_store_request:limits",
                                   f"store request with {len(vals)} values, max length {max(map(len, vals), default=0)} accepted", i)
-                    for b in vals:
-                        accepted.append((target, b, now, spec_max_age(nc)))
                 else:
                     self.flags.add("rej")
+                if data is not None or changed or (ok_tok and not big and not many):
+                    # possible (re-)puts: a re-put of identical bytes refreshes last_update without any visible change,
+                    # and an entry that raises later in the same request suppresses the response
+                    for b in vals:
+                        accepted.append((target, b, now, spec_max_age(nc)))
                 new = [b for b in after if b not in before]
                 for b in new:
                     t = W.truth.get(b)
